@@ -407,7 +407,7 @@ def plan(rng, tier_):
     q = tier_ == "quick"
     precs = [30, 53, 100] if q else [30, 53, 100, 200]
     jobs = []
-    for i in range(70 if q else 500):
+    for i in range(60 if q else 500):
         s = g_diff(rng); p = rng.choice(precs)
         jobs.append((s, p))
     for i in range(10 if q else 60):
@@ -468,7 +468,7 @@ def run(rep, tier_, rng):
     for c in calls.values():
         regimes[c["fn"] + ":" + c["regime"]] = regimes.get(c["fn"] + ":" + c["regime"], 0) + 1
     run_and_report(rep, insts, calls, tag="C28_%s" % tier_, params={"sentence_timeout": 60, "single_timeout": 80},
-                   budget=max(30, (135 if q else 1100) - tgen),
+                   budget=max(30, (115 if q else 1100) - tgen), jobs=10,
                    rule="each evaluation = one call of diff/diffs/diffun/taylor/difference/pade/differint of the current /repo code: test functions "
                         "polynomials (deg <= 8), P(x)e^(ax){1,sin bx,cos bx}, e^(ax) sin(bx) cos(cx), rational functions (partial fractions, poles at "
                         "distance >= 1), bivariate polynomials; dyadic evaluation points; orders 0..10; method step (central/left/right) or quad; "
